@@ -257,23 +257,27 @@ example : specEscape ['a', '"', '\n', Char.ofNat 0x1F600] = ['a', '\\', '"', '\\
 
 open NitroVerif.StringParse in
 /-- `string_decode_general`: for EVERY normal string literal the grammar admits — `"`, then one or more items, each one of
-    the four alternatives of `StringCharacter` (`SItem`: a character other than `"` `\` LF CR; `\` + one of `" \ / b f n r t`;
-    `\uXXXX` with four hexadecimal digits; `\u{X…}` with one or more hexadecimal digits, any number of leading zeros), then
+    the four alternatives of `StringCharacter` (`SItem`: a character other than `"` `\\` LF CR; `\\` + one of `" \\ / b f n r t`;
+    `\\uXXXX` with four hexadecimal digits; `\\u{X…}` with one or more hexadecimal digits, any number of leading zeros), then
     `"` — embedded anywhere in an input: the GENERATED grammar's `StringValue` rule (generic interpreter, any calling context,
     depth bound linear in the text) consumes exactly the literal and yields one pair, on which
-    * `build_string_value` returns the items decoded one by one (`SItem.decode`: the character, the simple escape,
-      `char::from_u32(u32::from_str_radix(digits, 16))`) with the line/column of the opening quote, and fails exactly when
-      some `\u` escape denotes no Unicode scalar value (a surrogate, a value above U+10FFFF);
-    * `validate_unicode_escapes` (`firstBadEscape`) returns the offset of the FIRST such escape (`firstBadItem`) — that is
-      where the repaired parser reports its syntax error — and nothing when every escape denotes a character.
+    * `build_string_value` (as repaired by fff8e9c) returns `decodeItems` of the items — a leading surrogate `\\uD800`–`\\uDBFF`
+      immediately followed by a trailing surrogate `\\uDC00`–`\\uDFFF`, both written as `\\uXXXX`, is ONE supplementary character
+      `0x10000 + ((lead − 0xD800) << 10) + (trail − 0xDC00)`; every other item is decoded on its own (`SItem.decode`: the
+      character, the simple escape, `char::from_u32(u32::from_str_radix(digits, 16))`) — with the line/column of the
+      opening quote;
+    * `validate_unicode_escapes` (`firstBadEscape`, as repaired by fff8e9c) returns `scanItems`: the offset of a leading
+      surrogate that is not immediately followed by a trailing one (another kind of character, `\\u{…}`, another lead, the
+      end of the literal), of a trailing surrogate without lead, of a `\\u{…}` that denotes no scalar value — that is where
+      the parser reports its syntax error — and nothing otherwise.
     (The empty literal `""` is `string_decode_at` with `s = []`; block strings: `parse_render_block_string_raw`.) -/
 theorem string_decode_general (it : SItem) (its : List SItem) (hok : AllOk (it :: its)) (inp : List Char) (off : Nat)
     (rest : List Char) (h : inp.drop off = '"' :: (litText (it :: its) ++ '"' :: rest)) (at_ : Atomicity) (fuel : Nat)
     (hf : (litText (it :: its)).length + 60 ≤ fuel) :
     ∃ pair, Peg.run gList fuel R.StringValue inp off at_ = some (off + ((litText (it :: its)).length + 2), [pair]) ∧
       stringValueChars (Ctx.spec inp) pair =
-        ((it :: its).mapM SItem.decode).map (fun s => (s, { line := (lineCol inp off).1, col := (lineCol inp off).2 })) ∧
-      firstBadEscape (Ctx.spec inp) [pair] = firstBadItem (it :: its) (off + 1) := by
+        (decodeItems false (it :: its)).map (fun s => (s, { line := (lineCol inp off).1, col := (lineCol inp off).2 })) ∧
+      firstBadEscape (Ctx.spec inp) [pair] = scanItems none (it :: its) (off + 1) := by
   refine ⟨litPair (it :: its) off, ?_, stringValueChars_litPair it its hok off rest h,
     firstBadEscape_litPair (it :: its) off rest h⟩
   obtain ⟨tr', h'⟩ := litValue_runs it its hok off rest (at_ := at_) {}
@@ -282,46 +286,77 @@ theorem string_decode_general (it : SItem) (its : List SItem) (hok : AllOk (it :
   rw [h, this]
 
 open NitroVerif.StringParse in
-/-- … and the value is the one the GraphQL specification assigns to the literal: if every item decodes (no `\u` escape
-    denotes a surrogate or a value above U+10FFFF) and the unescaped characters are SourceCharacters, then the builder's
-    characters `s` are `GqlString.decodeStringLiteral literal` (spec §2.9.4, the reference written independently for C16),
-    and `validate_unicode_escapes` accepts the literal: `decode (parse literal) = specDecode literal`. -/
+/-- `string_decode_general_spec` (since fix fff8e9c WITHOUT a side condition on surrogates): for every normal string literal
+    the grammar admits whose unescaped characters are SourceCharacters, embedded anywhere in an input —
+    `validate_unicode_escapes` accepts the literal IF AND ONLY IF the GraphQL specification assigns it a value
+    (`GqlString.decodeStringLiteral`, spec §2.9.4, the reference written independently for C16: every `\\u` escape denotes a
+    scalar value or is half of a well-formed surrogate pair), and then `build_string_value` returns exactly that value:
+    `decode (parse literal) = specDecode literal`. -/
 theorem string_decode_general_spec (it : SItem) (its : List SItem) (hok : AllOk (it :: its))
-    (hsrc : ∀ c, SItem.plain c ∈ it :: its → GqlString.sourceChar c = true) (s : List Char)
-    (hs : (it :: its).mapM SItem.decode = .ok s) (inp : List Char) (off : Nat) (rest : List Char)
+    (hsrc : ∀ c, SItem.plain c ∈ it :: its → GqlString.sourceChar c = true) (inp : List Char) (off : Nat) (rest : List Char)
     (h : inp.drop off = '"' :: (litText (it :: its) ++ '"' :: rest)) (at_ : Atomicity) (fuel : Nat)
     (hf : (litText (it :: its)).length + 60 ≤ fuel) :
     ∃ pair, Peg.run gList fuel R.StringValue inp off at_ = some (off + ((litText (it :: its)).length + 2), [pair]) ∧
-      stringValueChars (Ctx.spec inp) pair = .ok (s, { line := (lineCol inp off).1, col := (lineCol inp off).2 }) ∧
-      firstBadEscape (Ctx.spec inp) [pair] = none ∧
-      GqlString.decodeStringLiteral ('"' :: (litText (it :: its) ++ ['"'])) = some s := by
+      (firstBadEscape (Ctx.spec inp) [pair] = none ↔
+        (GqlString.decodeStringLiteral ('"' :: (litText (it :: its) ++ ['"']))).isSome = true) ∧
+      (firstBadEscape (Ctx.spec inp) [pair] = none → ∃ s,
+        stringValueChars (Ctx.spec inp) pair = .ok (s, { line := (lineCol inp off).1, col := (lineCol inp off).2 }) ∧
+        GqlString.decodeStringLiteral ('"' :: (litText (it :: its) ++ ['"'])) = some s) := by
   obtain ⟨pair, h1, h2, h3⟩ := string_decode_general it its hok inp off rest h at_ fuel hf
-  refine ⟨pair, h1, ?_, ?_, decodeStringLiteral_lit (it :: its) hok hsrc s hs⟩
-  · rw [h2, hs]; rfl
-  · rw [h3]; exact firstBadItem_none (mapM_decode_ok hok hs) _
+  obtain ⟨⟨a1, a2⟩, _⟩ := spec_items (it :: its) hok hsrc (off + 1)
+  rw [decodeStringLiteral_lit_eq (it :: its) hok]
+  refine ⟨pair, h1, ?_, ?_⟩ <;> rw [h3]
+  rotate_left
+  · intro hs
+    obtain ⟨s, hd, hq⟩ := a1 hs
+    exact ⟨s, by rw [h2, hd]; rfl, hq⟩
+  refine ⟨fun hs => ?_, fun hs => ?_⟩
+  · obtain ⟨s, _, hq⟩ := a1 hs
+    rw [hq]; rfl
+  · cases hsc : scanItems none (it :: its) (off + 1) with
+    | none => rfl
+    | some x =>
+      rw [a2 (by rw [hsc]; simp)] at hs
+      cases hs
 
 open NitroVerif.StringParse in
-/-- the hypotheses are satisfiable: `"a\u0041\u{1F600}\/"` is such a literal, all four alternatives, value `aA😀/` -/
-example : AllOk [.plain 'a', .u4 '0' '0' '4' '1', .ubrace ['1', 'F', '6', '0', '0'], .esc '/'] ∧
-    litText [.plain 'a', .u4 '0' '0' '4' '1', .ubrace ['1', 'F', '6', '0', '0'], .esc '/'] =
-      "a\\u0041\\u{1F600}\\/".toList ∧
-    ([SItem.plain 'a', .u4 '0' '0' '4' '1', .ubrace ['1', 'F', '6', '0', '0'], .esc '/'].mapM SItem.decode).toOption =
-      some ['a', 'A', Char.ofNat 0x1F600, '/'] := by
-  refine ⟨?_, by decide, by decide⟩
+/-- the hypotheses are satisfiable: `"a\\u0041\\u{1F600}\\/\\uD83D\\uDE00"` is such a literal, all four alternatives and a
+    surrogate pair, value `aA😀/😀`; a lone lead is reported at its own offset -/
+example : AllOk [.plain 'a', .u4 '0' '0' '4' '1', .ubrace ['1', 'F', '6', '0', '0'], .esc '/', .u4 'D' '8' '3' 'D', .u4 'D' 'E' '0' '0'] ∧
+    litText [.plain 'a', .u4 '0' '0' '4' '1', .ubrace ['1', 'F', '6', '0', '0'], .esc '/', .u4 'D' '8' '3' 'D', .u4 'D' 'E' '0' '0'] =
+      "a\\u0041\\u{1F600}\\/\\uD83D\\uDE00".toList ∧
+    (decodeItems false [SItem.plain 'a', .u4 '0' '0' '4' '1', .ubrace ['1', 'F', '6', '0', '0'], .esc '/', .u4 'D' '8' '3' 'D',
+      .u4 'D' 'E' '0' '0']).toOption = some ['a', 'A', Char.ofNat 0x1F600, '/', Char.ofNat 0x1F600] ∧
+    scanItems none [SItem.plain 'a', .u4 'D' '8' '3' 'D', .plain 'b', .u4 'D' 'E' '0' '0'] 10 = some 11 := by
+  refine ⟨?_, by decide, by decide, by decide⟩
   intro it hit
   simp only [List.mem_cons, List.not_mem_nil, or_false] at hit
-  rcases hit with rfl | rfl | rfl | rfl <;> simp [SItem.Ok, escLetters] <;> decide
+  rcases hit with rfl | rfl | rfl | rfl | rfl | rfl <;> simp [SItem.Ok, escLetters] <;> decide
 
-/-- `string_decode_general_spec` does NOT extend to surrogate pairs: the specification reads `\uD83D\uDE00` (a leading and a
-    trailing surrogate, both written as `\uXXXX`) as the one character U+1F600, the parser — since the repair of the panic
-    (668f535: `validate_unicode_escapes`) — rejects the document with a syntax error at the first escape (line 0, column 14;
-    `string_decode_general` says so in general: `firstBadItem` is the offset of the first `\u` escape that denotes no scalar
-    value). Kernel-checked on the model. -/
+/-- BEFORE fix fff8e9c `string_decode_general_spec` did NOT extend to surrogate pairs: the specification reads
+    `\\uD83D\\uDE00` (a leading and a trailing surrogate, both written as `\\uXXXX`) as the one character U+1F600, the parser —
+    since the repair of the panic (668f535) — rejected the document with a syntax error at the first escape (line 0,
+    column 14): witness on the PRE-REPAIR validation `firstBadEscapeOld` (kept in Model/Build.lean), kernel-checked. This is
+    the statement that was found false in the third stage and led to the repair. -/
 theorem string_decode_surrogate_pair_counterexample :
     GqlString.decodeStringLiteral "\"\\uD83D\\uDE00\"".toList = some [Char.ofNat 0x1F600] ∧
+    rejectsOld R.ExecutableDocument "query { a(s: \"\\uD83D\\uDE00\") }".toList = some (0, 14) := by
+  decide +kernel
+
+/-- … and AFTER fix fff8e9c the model of `parse_operation_document` (validation and builder as repaired) returns the document
+    whose string value is that one character; a lone lead, a reversed pair and a lead followed by `\\u{…}` stay syntax errors
+    reported at the lead / at the trailing surrogate that has no lead. -/
+theorem string_decode_surrogate_pair_repaired :
     (match parseOp "query { a(s: \"\\uD83D\\uDE00\") }".toList with
-      | .err 0 14 => true
-      | _ => false) = true := by
+      | .ok [.op o] =>
+        (match o.sel with
+         | [.field none _ _ [(_, _, .str s sp)] [] none] => s.toList == [Char.ofNat 0x1F600] && sp == { line := 0, col := 13 }
+         | _ => false)
+      | _ => false) = true ∧
+    (match parseOp "query { a(s: \"x\\uD83D\") }".toList with | .err 0 15 => true | _ => false) = true ∧
+    (match parseOp "query { a(s: \"\\uDE00\\uD83D\") }".toList with | .err 0 14 => true | _ => false) = true ∧
+    (match parseOp "query { a(s: \"\\uD83D\\u{DE00}\") }".toList with | .err 0 14 => true | _ => false) = true ∧
+    (match parseOp "query { a(s: \"\\uD83D\") b(t: \"\\uDE00\") }".toList with | .err 0 14 => true | _ => false) = true := by
   decide +kernel
 
 open NitroVerif.StringParse in
@@ -342,8 +377,8 @@ theorem parse_render_block_string_raw (body : List Char) (h3 : noBareTriple body
       stringValueChars (Ctx.spec inp) pair = .ok (body, { line := (lineCol inp off).1, col := (lineCol inp off).2 }) ∧
       firstBadEscape (Ctx.spec inp) [pair] = none := by
   refine ⟨blockPair body.length off, ?_, stringValueChars_blockPair body off rest h, by
-    simp [firstBadEscape, blockPair, flatList, flat, badEscape, Pair.rule, R.StringValue, R.BlockStringValue,
-      R.EscapedUnicode4, R.EscapedUnicodeBrace]⟩
+    simp [firstBadEscape, blockPair, flatList, flat, Pair.rule, R.StringValue, R.BlockStringValue,
+      R.NormalStringValue]⟩
   obtain ⟨tr', h'⟩ := blockString_runs (blockBody_of body h3 hend) off rest (at_ := at_) {}
   have := h' fuel hf
   unfold Peg.run
